@@ -27,6 +27,22 @@ NEEDS = {
  'C13-v2': 'an unconnectable orphan VBK block in flight shields higher in-flight blocks in tryConnectPayloads (break on first failure)',
  'C18-v1': 'compact value with exponent byte exactly 0x21 and mantissa 0x000100..0x00ffff (overflow thresholds transposed)',
  'C18-v2': 'base58 text with an embedded NUL (ValidAsCString guard removed)',
+ 'C10-v1': 'a BTC block referenced by two VTBs loses ONE reference after a save (rollback of one ALT block), then an incremental save and reload (setDirty dropped in BtcBlockAddon::removeRef)',
+ 'C10-v2': 'an ATV contained exactly settlementInterval blocks above the endorsed block, saved, then a non-fast load (loader window off by one in AltBlockTree::loadBlockInner)',
+ 'C12-v1': 'two equal-work VBK forks on chain and a pooled payload extending the inactive one: generatePopData leaves the VBK best chain on the other fork (restore of the original tip dropped)',
+ 'C12-v2': 'a pooled payload that passes all mempool checks and then fails on the temporary block: its id stays in the ALT payloads index mapped to the temporary block',
+ 'C14-v1': 'an endorsement whose block of proof sits on a losing VBK fork, at least 12 VBK blocks below an endorsement on the best chain (getBestPublicationHeight checks the height, not the block)',
+ 'C14-v2': 'flat-score round with an averaged POP difficulty above 1.0 (popdifficulty no longer reset to 1.0)',
+ 'C15-v1': 'testnet-style BTC parameters, a retarget whose result is the pow limit after a period that did not end at the limit, then a non-delayed block (min-difficulty walk-back steps over the retarget block)',
+ 'C15-v2': 'VBK header dated between the two middle elements of an even-sized median-time window (nth_element at size/2 instead of the lower median)',
+ 'C16-v1': 'an invalid payload that is not the last posted check, PopData released right after the call (result loop returns at the first invalid future)',
+ 'C16-v2': 'a PopData with a duplicated payload, released right after the call (duplicate check moved in front of the wait loop)',
+ 'C17-v1': 'two threads hash headers of the same cold progpow epoch (cache entry published before it is built) - needs concurrency',
+ 'C17-v2': 'a VbkBlock object with a memoised hash reused as decoder output for another header without a precalculated hash (memo only overwritten when a hash is handed in)',
+ 'C19-v1': 'an ATV delivered through the mempool when the next block is exactly the last timely one (>= instead of > in MemPoolBlockTree::checkContextually)',
+ 'C19-v2': 'two miners endorse the same ALT block with the same fee in the same VBK block, both delivered through the mempool (comparator tie-break no longer distinguishes them)',
+ 'C20-v1': 'chain B has a part validated on its own that is at least as tall as active chain A; B\'s next block is valid only thanks to A; comparePopScore(A, B) (only-applied-chain test rewritten around the best tip)',
+ 'C20-v2': 'B\'s unvalidated payload block depends on A and has an empty block on top; B wins comparePopScore (empty blocks marked fully valid next to the other chain + unapplyWhile predicate skips payload-less blocks)',
 }
 out = []
 for cj in sorted(glob.glob(V + '/seeded/_confirm/C*_v*.json')):
